@@ -1,7 +1,8 @@
 (* C07: concrete witnesses, evaluated with the executable SHA-256:
-   - the premises of the theorems are satisfiable (a valid, linked primary history; an in-order
+   - the premises of the theorems are satisfiable (a valid primary history; an in-order
      schedule that is accepted),
-   - replica_prefix is REFUTED on the code as found (stale BlRoot in the pooled tx holder),
+   - the schedule that refuted replica_prefix before /repo commit 7c27871 (stale BlRoot left in the
+     pooled tx holder: deliver 1, deliver 2, discard since 1, deliver 1) now ends with the primary's Alh,
    - altered_rejected is REFUTED: header fields that enter the Alh only through the inner hash
      (Ts, Version, Metadata, BlTxID together with BlRoot, Eh together with the entries) can be
      altered in the exported bytes and the replica accepts a transaction with another Alh. *)
@@ -39,20 +40,16 @@ Definition Q2 : list txrec := [q1; q2].
 
 Definition cfg_async : cfg :=
   {| c_ext := false; c_maxActive := 1000; c_maxKeyLen := 1024; c_maxValueLen := 4096;
-     c_maxTxEntries := 1024; c_stale := true; c_embedded := false |}.
+     c_maxTxEntries := 1024; c_embedded := false |}.
 Definition cfg_sync : cfg :=
   {| c_ext := true; c_maxActive := 1000; c_maxKeyLen := 1024; c_maxValueLen := 4096;
-     c_maxTxEntries := 1024; c_stale := true; c_embedded := false |}.
-Definition cfg_fixed : cfg :=
-  {| c_ext := true; c_maxActive := 1000; c_maxKeyLen := 1024; c_maxValueLen := 4096;
-     c_maxTxEntries := 1024; c_stale := false; c_embedded := false |}.
+     c_maxTxEntries := 1024; c_embedded := false |}.
 Definition cfg_embedded : cfg :=
   {| c_ext := true; c_maxActive := 1000; c_maxKeyLen := 1024; c_maxValueLen := 4096;
-     c_maxTxEntries := 1024; c_stale := true; c_embedded := true |}.
+     c_maxTxEntries := 1024; c_embedded := true |}.
 
 (* ---- premises are satisfiable ---- *)
-Example primary_valid_sat : primary_valid Hs P3 = true /\ linked P3 = true /\
-                            primary_valid Hs Q2 = true /\ linked Q2 = true.
+Example primary_valid_sat : primary_valid Hs P3 = true /\ primary_valid Hs Q2 = true.
 Proof. vm_compute. repeat split. Qed.
 
 (* in-order delivery (with a duplicate, a retry of a future one and a restart in between) is
@@ -69,32 +66,14 @@ Example sync_schedule_accepted :
   map t_alh (s_com st) = map t_alh P3 /\ lenN (live (s_tail st)) = 0.
 Proof. vm_compute. split; reflexivity. Qed.
 
-(* ---- replica_prefix refuted on the code as found ---- *)
+(* ---- the schedule that used to leave a stale BlRoot in tx 1 ---- *)
 Definition stale_schedule : list action :=
   [ADeliver false 0 false; ADeliver false 1 false; ADiscard 1; ADeliver false 0 false].
 
-Definition alhs_differ (a b : list bytes) : bool :=
-  negb (beq (concat a) (concat b)) || negb (length a =? length b)%nat.
-Lemma alhs_differ_neq a b : alhs_differ a b = true -> a <> b.
-Proof.
-  unfold alhs_differ. intros D ->. rewrite beq_refl, Nat.eqb_refl in D. discriminate.
-Qed.
-
-Theorem replica_prefix_refuted :
-  exists (c : cfg) (P : list txrec) (acts : list action),
-    primary_valid Hs P = true /\ linked P = true /\
-    let st := run Hs c P acts in
-    map t_alh (chain st) <> map t_alh (firstn (length (chain st)) P).
-Proof.
-  exists cfg_sync, P3, stale_schedule. split; [vm_compute; reflexivity|]. split; [vm_compute; reflexivity|].
-  apply alhs_differ_neq. vm_compute. reflexivity.
-Qed.
-
-(* the same schedule on the repaired code *)
-Example stale_schedule_fixed :
-  let st := run Hs cfg_fixed P3 stale_schedule in
-  map t_alh (chain st) = map t_alh (firstn (length (chain st)) P3).
-Proof. vm_compute. reflexivity. Qed.
+Example stale_schedule_repaired :
+  let st := run Hs cfg_sync P3 stale_schedule in
+  map t_alh (chain st) = [t_alh p1] /\ map (fun r => h_blroot (t_hdr r)) (chain st) = [zeros32].
+Proof. vm_compute. split; reflexivity. Qed.
 
 (* ---- altered exports that are accepted ---- *)
 Definition st_after (c : cfg) (P : list txrec) (n : nat) : store :=
